@@ -1,5 +1,6 @@
 """Planner plugin: ILPScheduler (schedulers/ilp_scheduler.py, Gurobi back-end,
-non-batching mode) for the planner clauses of C10, C11, C12, C14.
+non-batching mode) for the planner clauses of C10, C11, C12, C14.  (Batching mode is the
+plugin `ilpbatch.py`, which reuses the world construction, capture and oracles of this module.)
 
 For every generated invocation the plugin
 
@@ -60,6 +61,7 @@ def _repo():
     from utils import EventTime
     from workers import Worker, WorkerPool, WorkerPools
     from workload import (
+        BatchStrategy,
         ExecutionStrategies,
         ExecutionStrategy,
         Job,
@@ -124,20 +126,33 @@ def build_world(spec: dict) -> World:
     w.tasks = {}  # unique name -> Task
     w.task_list = []
     graphs = {}
+
+    def mk_strategies(strats):
+        return R["ExecutionStrategies"](
+            [
+                R["ExecutionStrategy"](
+                    resources=Resources(resource_vector={Resource(name=n, _id="any"): q for n, q in s["req"]}),
+                    batch_size=s["batch"],
+                    runtime=US(s["runtime"]),
+                )
+                for s in strats
+            ]
+        )
+
+    # batching worlds: WorkProfiles shared by several tasks (spec["profiles"]: name -> strategies,
+    # a task names its profile in t["profile"]); BatchStrategy objects of earlier invocations are
+    # shared by the members of one earlier batch (t["prev"]["batch"] = batch label)
+    w.profiles = {}
+    for pname, strats in spec.get("profiles", {}).items():
+        w.profiles[pname] = R["WorkProfile"](name=pname, execution_strategies=mk_strategies(strats))
+    w.prev_batches = {}
     for g in spec["graphs"]:
         tasks = []
         for t in g["tasks"]:
-            strategies = R["ExecutionStrategies"](
-                [
-                    R["ExecutionStrategy"](
-                        resources=Resources(resource_vector={Resource(name=n, _id="any"): q for n, q in s["req"]}),
-                        batch_size=s["batch"],
-                        runtime=US(s["runtime"]),
-                    )
-                    for s in t["strats"]
-                ]
-            )
-            profile = R["WorkProfile"](name=f"{t['name']}_{g['name']}_profile", execution_strategies=strategies)
+            if t.get("profile") is not None:
+                profile = w.profiles[t["profile"]]
+            else:
+                profile = R["WorkProfile"](name=f"{t['name']}_{g['name']}_profile", execution_strategies=mk_strategies(t["strats"]))
             task = R["Task"](
                 name=t["name"],
                 task_graph=g["name"],
@@ -167,6 +182,12 @@ def build_world(spec: dict) -> World:
         prev = t["prev"]
         worker, pool = w.workers[prev["w"]]
         strategy = task.available_execution_strategies[prev["s"]]
+        if prev.get("batch") is not None:
+            # placed by an earlier batching invocation: the members of that batch share one BatchStrategy
+            key = (t.get("profile"), prev["s"], prev["batch"])
+            if key not in w.prev_batches:
+                w.prev_batches[key] = R["BatchStrategy"](execution_strategy=strategy)
+            strategy = w.prev_batches[key]
         placement = R["Placement"].create_task_placement(
             task=task,
             placement_time=US(prev["time"]),
@@ -198,6 +219,7 @@ def build_world(spec: dict) -> World:
         retract_schedules=f["retract"],
         release_taskgraphs=f["release_taskgraphs"],
         goal=f["goal"],
+        batching=bool(f.get("batching", False)),
     )
     w.scheduler._allowed_to_miss_deadlines = set(spec.get("allowed0", []))
     return w
@@ -257,8 +279,21 @@ def real_schedule(w: World) -> dict:
         rec["allowed0"] = sorted(sched._allowed_to_miss_deadlines)
         return orig_add(sim_time, optimizer, workload, tasks, workers)
 
+    orig_cb = sched._create_batch_task_variables
+    rec["profile_calls"] = []
+
+    def cb_wrapper(sim_time, optimizer, profile, tasks, workers):
+        # batching mode: the per-profile task SET is iterated in hash order; record that order
+        # (iterating an unmodified set twice yields the same order) and the BatchTasks created
+        call = {"profile": profile, "order": list(tasks), "batches": None}
+        rec["profile_calls"].append(call)
+        out = orig_cb(sim_time, optimizer, profile, tasks, workers)
+        call["batches"] = [(name, list(v.task.tasks), v.task._strategy, v) for name, v in out.items()]
+        return out
+
     w.workload.get_schedulable_tasks = get_wrapper
     sched._add_variables = add_wrapper
+    sched._create_batch_task_variables = cb_wrapper
     saved_model = ilp_mod.gp.Model
     ilp_mod.gp.Model = CapModel
     before = snapshot(w)
@@ -272,6 +307,7 @@ def real_schedule(w: World) -> dict:
         ilp_mod.gp.Model = saved_model
         del w.workload.get_schedulable_tasks
         del sched._add_variables
+        del sched._create_batch_task_variables
     after = snapshot(w)
     rec["allowed_after"] = sorted(sched._allowed_to_miss_deadlines)
     rec.update(
@@ -588,7 +624,13 @@ def oracle_c10(w: World, rec: dict) -> list[str]:
         if p.worker_id is not None and p.worker_id not in {wk.id for wk in pool.workers}:
             bad.append("worker not in the named pool")
         if p.execution_strategy is not None and not any(s is p.execution_strategy for s in t.available_execution_strategies):
-            bad.append("strategy does not belong to the task")
+            # a batching planner reports a fresh BatchStrategy: it must be a copy of one of the task's own strategies
+            R = _repo()
+            if not (
+                isinstance(p.execution_strategy, R["BatchStrategy"])
+                and any(R["ExecutionStrategy"].__eq__(s, p.execution_strategy) for s in t.available_execution_strategies)
+            ):
+                bad.append("strategy does not belong to the task")
         if _t(p.placement_time) < w.now:
             bad.append("placement time before now")
         if not t.release_time.is_invalid() and t.state.name != "VIRTUAL" and _t(p.placement_time) < _t(t.release_time):
@@ -601,11 +643,28 @@ def oracle_c10(w: World, rec: dict) -> list[str]:
         for r, q in wk.resources.resources:
             tot[r.name] = tot.get(r.name, 0) + q
         cap[wk.id] = tot
+    BatchStrategy = _repo()["BatchStrategy"]
+    # a batch (the tasks sharing one BatchStrategy object) is one unit of work: same worker, same
+    # start, at most batch_size members, and its resources are held once (Worker.place_task)
+    groups = {}
+    for t, wid, s, e, strat in iv:
+        if isinstance(strat, BatchStrategy):
+            groups.setdefault(id(strat), []).append((t, wid, s, strat))
+    for members in groups.values():
+        if len({(wid, s) for _, wid, s, _ in members}) > 1:
+            bad.append("members of one batch placed on different workers or at different times")
+        if len(members) > members[0][3].batch_size:
+            bad.append("more tasks in one batch than its batch size")
     for _, wid, s0, _e0, _ in iv:
         for wk_id, tot in cap.items():
             use = {}
+            counted = set()
             for t, wid2, s, e, strat in iv:
                 if wid2 == wk_id and s <= s0 < e:
+                    if isinstance(strat, BatchStrategy):
+                        if id(strat) in counted:
+                            continue  # a batch is counted once
+                        counted.add(id(strat))
                     for r, q in strat.resources.resources:
                         use[r.name] = use.get(r.name, 0) + q
             for rn, q in use.items():
